@@ -42,6 +42,10 @@ type Kernel struct {
 	Pairs   map[string][]string `json:"pairs"`  // `v, ok := <expr>` (type assertion, map lookup, two-valued call): expr text -> [Lean value, Lean ok/err]
 	Composites map[string][]string `json:"composites"` // composite literal type text -> [Lean prefix, Lean suffix]; keyed fields become `f := e` via CompFields
 	CompFields map[string]string   `json:"compfields"` // Go field name of a composite literal -> Lean field name
+	LoopBody   bool                `json:"loopbody"`   // translate the body of the first `for` statement: falling off its end is the kernel's "continue" value (Final)
+	Final      string              `json:"final"`      // the value when the statement list ends without a return (default: the state / ((), state))
+	Returns    map[string]string   `json:"returns"`    // return expression text -> Lean value (e.g. a nullable pointer that is known non-nil at this return)
+	SelectAs   string              `json:"selectas"`   // a `select` statement (a wait) becomes `state := <this expression>`
 	// Calls values: "f" pure call; "$x" replace by x; "$id" identity on arg 0; "!f" statement `s := f s args`; "!!f" statement `s := f s` (arguments
 	// are event literals, ignored); "&f|v" a call with a side effect used inside a condition: `s := f s args` is hoisted in front of the
 	// `if` and the call's value is the Lean expression v (evaluated on the updated state)
@@ -249,7 +253,12 @@ func (t *tr) assigned(ss []ast.Stmt, set map[string]bool) (hasRet bool) {
 			}
 		case *ast.ReturnStmt:
 			hasRet = true
+		case *ast.SelectStmt:
+			set[t.k.State] = true
 		case *ast.IfStmt:
+			if x.Init != nil && t.assigned([]ast.Stmt{x.Init}, set) {
+				hasRet = true
+			}
 			if t.assigned(x.Body.List, set) {
 				hasRet = true
 			}
@@ -304,6 +313,9 @@ func (t *tr) assign(lhs ast.Expr, rhs string, ind string) string {
 }
 
 func (t *tr) final() string {
+	if t.k.Final != "" {
+		return t.k.Final
+	}
 	switch t.k.Ret {
 	case "state":
 		return t.k.State
@@ -335,6 +347,9 @@ func (t *tr) ret(x *ast.ReturnStmt, ind string) string {
 	default:
 		if len(x.Results) == 0 {
 			return ind + "((), " + t.k.State + ")\n"
+		}
+		if m, ok := t.k.Returns[exprText(x.Results[0])]; ok {
+			return fmt.Sprintf("%s(%s, %s)\n", ind, m, t.k.State)
 		}
 		return fmt.Sprintf("%s(%s, %s)\n", ind, t.expr(x.Results[0]), t.k.State)
 	}
@@ -399,6 +414,10 @@ func (t *tr) stmts(ss []ast.Stmt, k func() string, ind string) string {
 				return fmt.Sprintf("%slet %s := (%s %s);\n", ind, t.k.State, strings.TrimPrefix(l, "!"), strings.Join(append([]string{t.k.State}, args...), " ")) + cont()
 			}
 			panic("unmapped statement call " + fn)
+		}
+	case *ast.SelectStmt:
+		if t.k.SelectAs != "" {
+			return fmt.Sprintf("%slet %s := (%s);\n", ind, t.k.State, t.k.SelectAs) + cont()
 		}
 	case *ast.DeferStmt:
 		if t.dropped(exprText(x.Call.Fun)) {
@@ -575,6 +594,18 @@ func translate(repo string, k Kernel) (out string, err error) {
 				return "", fmt.Errorf("no function literal in %s.%s", k.Recv, k.Func)
 			}
 			list = lit.Body.List
+		}
+		if k.LoopBody {
+			var loop *ast.ForStmt
+			for _, st := range list {
+				if f, ok := st.(*ast.ForStmt); ok && loop == nil {
+					loop = f
+				}
+			}
+			if loop == nil {
+				return "", fmt.Errorf("no for statement in %s.%s", k.Recv, k.Func)
+			}
+			list = loop.Body.List
 		}
 		body := t.stmts(list, func() string { return "  " + t.final() + "\n" }, "  ")
 		return fmt.Sprintf("/-- generated from %s: %s.%s -/\ndef %s %s :=\n%s", k.File, k.Recv, k.Func, k.Lean, k.Sig, body), nil
